@@ -97,7 +97,9 @@ def build(spec):
     if spec['fn']:
         shape = tuple(spec['in_shape'])
         f = V.input('f', shape=shape, physical=spec['phys'], updatable=spec['upd'])
-        arg = f if shape == () else f[0]
+        arg = f if shape == () else f[spec.get('in_comp', 0)]
+        if spec.get('in_deriv'):
+            arg = arg.dx(0)             # derivative of the input field
         coef = coef * (getattr(vform, spec['fn'])(arg) if spec['fn'] != 'id' else arg)
     if spec['par']:
         coef = coef * V.parameter('a')
@@ -107,7 +109,9 @@ def build(spec):
             return w
         return w.dx(spec['dax'], times=spec['dtimes'], parametric=spec['dpara'])
     if comps:
-        main = inner(u, v) if u is not None else inner(v, vform.as_vector([1.0] * comps))
+        w = vform.as_vector([0.5] * comps)
+        uu = {'': u, '+': (u + w) if u is not None else None, '-': (u - w) if u is not None else None}[spec.get('vop', '')]
+        main = inner(uu, v) if u is not None else inner(v, vform.as_vector([1.0] * comps))
         second = div(u) * div(v) if u is not None else div(v)
     else:
         main = D(u) * v if u is not None else D(v)
@@ -133,7 +137,8 @@ def base_spec(s):
         kind = 'nomeasure'
     return {'k': 'tpl', 'dim': dim, 'surface': False, 'boundary': kind.startswith('boundary'), 'arity': 2, 'comps': comps,
             'spaces': [0, 0],
-            'c': s.pick([2.0, 3.0, 0.5]), 'fn': fn, 'in_shape': [], 'phys': bool(s.choice(2)), 'upd': False,
+            'c': s.pick([2.0, 3.0, 0.5, 1e-13]), 'fn': fn, 'in_shape': s.pick([[], [], [2]]), 'phys': bool(s.choice(2)), 'upd': False,
+            'in_deriv': False, 'in_comp': 0, 'vop': s.pick(['', '', '+']),
             'par': bool(s.choice(2)), 'dax': s.choice(dim), 'dtimes': 0 if comps else s.choice(3), 'dpara': False,
             'meas': {'volume': 'dx', 'nomeasure': 'none', 'boundary': 'ds', 'boundary-nomeasure': 'none'}[kind],
             'op': s.pick(['', '+', '-']), 'c2': s.pick([1.5, 4.0])}
@@ -157,7 +162,13 @@ def mutations(spec):
             if g != spec['fn']:
                 mut('function-name', fn=g)
     mut('constant', c=spec['c'] + 1.0)
+    mut('constant-tiny-difference', c=spec['c'] + 3e-13)
+    if spec['comps'] and spec['arity'] == 2:
+        mut('vector-operator', vop={'': '+', '+': '-', '-': '+'}[spec.get('vop', '')])
     if spec['fn']:
+        mut('input-derivative', in_deriv=not spec.get('in_deriv', False))
+        if spec['in_shape']:
+            mut('input-component', in_comp=1 - spec.get('in_comp', 0))
         mut('shape', in_shape=([2] if not spec['in_shape'] else []))
         mut('updatable', upd=not spec['upd'])
         mut('physical', phys=not spec['phys'])
@@ -297,8 +308,13 @@ def run_case(ctx):
     pool = [base]
     attrs = {}
     nn = 1 + ps.choice(4)
+    by_attr = {}
+    for a, n in muts:
+        by_attr.setdefault(a, []).append(n)
+    attr_names = sorted(by_attr)
     for _ in range(nn):
-        a, n = muts[ps.choice(len(muts))]
+        a = attr_names[ps.choice(len(attr_names))]         # attribute first, so every attribute is equally likely
+        n = by_attr[a][ps.choice(len(by_attr[a]))]
         if canon(n) not in [canon(p) for p in pool]:
             attrs[len(pool)] = a
             pool.append(n)
